@@ -742,6 +742,8 @@ def run(pid, tier, seed, res, only=None):
                         props_.add("C11")
                     if o["op"].get("from_cache") is not None or o["op"].get("cache_deps_of") is not None:
                         props_.add("C18")
+                    if not o["op"].get("run_debug") and any(idx_of(x) is not None and idx_of(x) in base["case"]["debug"] for x in set(o["executed"]) - set(mnames)):
+                        props_.add("C13")  # a debug node ran although RUN_DEBUG_NODES was off for this operation
                     for p in props_:
                         res.hit(p, "monitor", msg, dict(base, kind="monitor", op_index=oi))
             else:
